@@ -483,6 +483,13 @@ def _canon(typer, e, atoms, depth=0):
         if l is None or r is None:
             return None
         return (e["op"], l, r)
+    if k == "Call" and (callee(e) or "").rsplit("::", 1)[-1] in ("div_ceil", "div_euclid", "wrapping_div", "saturating_sub", "wrapping_sub", "next_multiple_of") and len(e["args"]) == 2:
+        l = _canon(typer, e["args"][0], atoms, depth + 1)
+        r = _canon(typer, e["args"][1], atoms, depth + 1)
+        if l is None or r is None:
+            return None
+        opn = {"div_ceil": "DivCeil", "div_euclid": "Div", "wrapping_div": "Div", "saturating_sub": "SatSub", "wrapping_sub": "Sub", "next_multiple_of": "NextMul"}[(callee(e) or "").rsplit("::", 1)[-1]]
+        return (opn, l, r)
     # anything else (a dimension read, a call) is an opaque atom keyed by its text
     key = "expr:" + show(e)[:80]
     if key not in atoms:
@@ -504,8 +511,14 @@ def _eval(t, env):
         return a - b if a >= b else None      # usize underflow: the point is outside the domain
     if t[0] == "Mul":
         return a * b
+    if t[0] == "SatSub":
+        return max(0, a - b)
     if b == 0:
         return None
+    if t[0] == "DivCeil":
+        return -(-a // b)
+    if t[0] == "NextMul":
+        return -(-a // b) * b
     return a // b if t[0] == "Div" else a % b
 
 
@@ -575,6 +588,7 @@ def r30_conv_geometry(facts):
                     if id(init) in known or any(id(x) in known for x in walk(init)):
                         continue
                     divs = [x for x in walk(init) if x.get("k") == "Binary" and x.get("op") == "Div"]
+                    divs += [{"r": x["args"][1]} for x in walk(init) if x.get("k") == "Call" and (callee(x) or "").rsplit("::", 1)[-1] in ("div_ceil", "div_euclid", "wrapping_div", "checked_div") and len(x["args"]) == 2]
                     if not divs:
                         continue
 
